@@ -45,6 +45,8 @@ def plan(tier, seed):
         shards.append({"kind": "faulted", "seed": seed, "start": start, "count": per})
     for start in range(0, n_ns // 3, per):
         shards.append({"kind": "caller_named", "seed": seed, "start": start, "count": per})
+    for start in range(0, n_ns // 3, per):
+        shards.append({"kind": "hand_built", "seed": seed, "start": start, "count": per})
     for s in shards:
         s["tier"] = tier
     return shards
@@ -136,6 +138,51 @@ def fault_prefix(case, ctx):
     return b
 
 
+def hand_built_region(case, ctx):
+    """The caller assembles a hierarchy by hand: the case's graph is the body of
+    a region block the caller names itself (a generated-looking region name at
+    or ahead of the generator index); the sub-graph is created on the receiving
+    graph's own generator, and the region is handed to the outer graph with add_block or the constructor."""
+    from numba_scfg.core.datastructures.scfg import SCFG, NameGenerator
+    from numba_scfg.core.datastructures.basic_block import BasicBlock, RegionBlock
+
+    rng = random.Random(core.sha([case["g"], "hand_built"]))
+    g = {k: tuple(v) for k, v in case["g"].items()}
+    targeted = {t for v in g.values() for t in v}
+    heads = [k for k in g if k not in targeted]
+    exits = [k for k, v in g.items() if not v]
+    if len(heads) != 1 or len(exits) != 1:
+        return drivers.make_scfg(g, "bytecode")
+    top = SCFG({})
+    # (a sub-graph on a generator of its own is not a hierarchy the library can
+    # keep fresh - the stages draw names for the inside from that generator,
+    # which never heard of the outside - and was dropped from this class after
+    # the first run on the unchanged tree)
+    mode = "shared"
+    gen = top.name_gen
+    body = {k: BasicBlock(name=k, _jump_targets=tuple(v) if v else ("after_region",))
+            for k, v in g.items()}
+    sub = SCFG(body, name_gen=gen) if gen is not None else SCFG(body)
+    kind = rng.choice(["loop", "head", "tail", "branch"])
+    idx = top.name_gen.kinds.get(kind, 0) + rng.choice([0, 0, 1, 3])
+    region = RegionBlock(name=f"{kind}_region_{idx}", _jump_targets=("after_region",), kind=kind,
+                         parent_region=top.region, header=heads[0], subregion=sub, exiting=exits[0])
+    object.__setattr__(sub, "region", region)
+    if rng.random() < 0.6:
+        top.add_block(BasicBlock(name="before_region", _jump_targets=(region.name,)))
+        top.add_block(region)
+        top.add_block(BasicBlock(name="after_region", _jump_targets=()))
+    else:
+        top = SCFG({"before_region": BasicBlock(name="before_region", _jump_targets=(region.name,)),
+                    region.name: region,
+                    "after_region": BasicBlock(name="after_region", _jump_targets=())},
+                   name_gen=top.name_gen)
+        object.__setattr__(region, "parent_region", top.region)
+    ctx.hit("c18.hand_built_regions")
+    ctx.hit("c18.hand_built_regions.generator_" + mode)
+    return top
+
+
 def caller_named_inserts(scfg, case, ctx):
     """The caller places blocks with the public insert_* methods under names of
     ITS OWN choosing that look like generated ones, at or ahead of the index
@@ -183,6 +230,8 @@ def staged(case, acc, reloads):
     elif case.get("caller_named"):
         scfg = drivers.make_scfg(g, "bytecode", case.get("how", "ctor"))
         caller_named_inserts(scfg, case, ctx)
+    elif case.get("hand_built"):
+        scfg = hand_built_region(case, ctx)
     else:
         scfg = drivers.make_scfg(g, "bytecode", case.get("how", "ctor"))
     before_all = set(g)
@@ -258,6 +307,13 @@ def run_shard(spec):
             staged({"kind": "namespace", "g": g, "reloads": {}, "how": how}, acc, {})
             acc.counters["namespace_graphs"] += 1
             acc.counters["namespace_graphs.built_by_" + how] += 1
+    elif k == "hand_built":
+        for i in range(spec["start"], spec["start"] + spec["count"]):
+            g = graphs.make_case(["loop", "struct", "rand_small"][i % 3], spec["seed"], 450000 + i)
+            if g is None:
+                continue
+            staged({"kind": "hand_built", "g": g, "reloads": {}, "hand_built": True}, acc, {})
+            acc.counters["hand_built_histories"] += 1
     elif k == "caller_named":
         for i in range(spec["start"], spec["start"] + spec["count"]):
             g = graphs.make_case(["loop", "struct", "rand_small", "rand"][i % 4], spec["seed"], 400000 + i)
